@@ -1,6 +1,8 @@
 package rules
 
 import (
+	"fmt"
+	"os"
 	"strconv"
 	"go/constant"
 	"go/token"
@@ -64,11 +66,75 @@ func storeFuncs(w *core.World) []*ssa.Function {
 
 func isLockedHelper(f *ssa.Function) bool {
 	n := f.Name()
-	return strings.HasSuffix(n, "Locked") || n == "getRange"
+	if strings.HasSuffix(n, "Locked") || n == "getRange" {
+		return true
+	}
+	return inferredHelpers[f]
+}
+
+// inferredHelpers: unexported methods all of whose uses are plain static calls from the analysed
+// functions. Such a method may rely on its callers for the lock: what it needs becomes a requirement
+// checked at every one of its call sites (CheckHelperCalls), which is as strong as checking the
+// method alone and does not depend on its name.
+var inferredHelpers = map[*ssa.Function]bool{}
+
+func inferLockedHelpers(w *core.World, funcs []*ssa.Function) {
+	inferredHelpers = map[*ssa.Function]bool{}
+	in := map[*ssa.Function]bool{}
+	for _, f := range funcs {
+		in[f] = true
+	}
+	calls := map[*ssa.Function]int{}
+	bad := map[*ssa.Function]bool{}
+	for _, g := range w.Funcs() {
+		for _, ins := range core.OwnInstrs(g) {
+			if ci, ok := ins.(ssa.CallInstruction); ok {
+				s := core.ResolveCall(ci)
+				if s.Callee != nil && in[s.Callee] {
+					_, isCall := ins.(*ssa.Call)
+					if !isCall || !in[g] {
+						bad[s.Callee] = true // go/defer, or a caller outside the analysed set
+					}
+					calls[s.Callee]++
+				}
+			}
+			// a method value or a function value: uses that are not calls
+			for _, op := range ins.Operands(nil) {
+				if op == nil || *op == nil {
+					continue
+				}
+				if fv, ok := (*op).(*ssa.Function); ok && in[fv] {
+					if ci, isCall := ins.(ssa.CallInstruction); !isCall || ci.Common().Value != fv {
+						bad[fv] = true
+					}
+				}
+				if mc, ok := (*op).(*ssa.MakeClosure); ok {
+					// a bound method value: the wrapper carries the method's object
+					if wr, ok := mc.Fn.(*ssa.Function); ok && wr.Synthetic != "" && wr.Object() != nil {
+						for f := range in {
+							if f.Object() == wr.Object() {
+								bad[f] = true
+							}
+						}
+					}
+				}
+			}
+		}
+	}
+	for _, f := range funcs {
+		if f.Signature.Recv() == nil || f.Object() == nil || f.Object().Exported() || calls[f] == 0 || bad[f] {
+			continue
+		}
+		if strings.Contains(f.Name(), "$") {
+			continue
+		}
+		inferredHelpers[f] = true
+	}
 }
 
 func ruleGuardedBy(w *core.World, r *core.Report) {
 	funcs := storeFuncs(w)
+	inferLockedHelpers(w, funcs)
 	findings, requires, accesses := core.CheckGuards(funcs, guardSpecs, isLockedHelper)
 	r.CallSites += accesses
 	seen := map[string]bool{}
@@ -785,6 +851,18 @@ func ruleJointUnderGc(w *core.World, r *core.Report) {
 					}
 				}
 			}
+			if os.Getenv("GUNYU_DEBUG") != "" {
+				for _, l := range p.DumpArith() {
+					fmt.Println("DEBUG dc", l)
+				}
+				for _, fct := range p.Conds {
+					if c, ok := core.FactCmp(fct); ok {
+						fmt.Println("DEBUG cond", c.Op, p.Resolve(c.X).String(), "|", p.Resolve(c.Y).String(), w.Pos(fct.Cond.Pos()))
+					} else {
+						fmt.Println("DEBUG cond", fct.Val, fct.Cond.String(), w.Pos(fct.Cond.Pos()))
+					}
+				}
+			}
 			bad2 = "the collector removes log segments on a pass that keeps the snapshot indexed: the size test spared the snapshot although the log that continues it is being deleted, so the offset right after the snapshot stays 'valid' while its bytes are gone"
 			for _, in := range p.Instrs {
 				for _, rm := range aofRemoves {
@@ -1161,18 +1239,31 @@ func ruleTruncateGap(w *core.World, r *core.Report) {
 
 func ruleVerifyOnOpen(w *core.World, r *core.Report) {
 	if f := fn(w, r, "(*pkg/store.AofRotateReader).openFile"); f != nil {
-		ok := false
-		for _, s := range core.SitesNamed(f, false, "(*pkg/store.AofRotateReader).isCorrupted") {
-			for _, fct := range core.FactsAt(s.Instr.Block()) {
-				if fct.Val && core.IsFieldLoad(core.Unwrap(fct.Cond), "AofRotateReader", "verifyCrc") {
-					ok = true
+		// with the switch on, the check runs and a failed check fails the open (decided on paths, so
+		// that the phases of the open may live in helpers)
+		ok, sawFail := true, false
+		isSw := func(v ssa.Value) bool { return core.IsFieldLoad(core.Unwrap(v), "AofRotateReader", "verifyCrc") }
+		okEnum0 := core.EnumPathsN(f.Blocks[0], 0, 100000, core.Unroll, func(p *core.Path) {
+			ret, isRet := p.End.(*ssa.Return)
+			if !isRet || ret.Parent() != f {
+				return
+			}
+			for _, s := range pathSites(p) {
+				if s.Name != "(*pkg/store.AofRotateReader).isCorrupted" {
+					continue
+				}
+				if !pathAssumed(p, isSw, true) {
+					continue
+				}
+				if failedOn(p, s.Value()) {
+					sawFail = true
+					if pathNil(p, ret.Results[len(ret.Results)-1]) {
+						ok = false
+					}
 				}
 			}
-			// its error is returned
-			if !failureReturned(f, s) {
-				ok = false
-			}
-		}
+		})
+		ok = ok && sawFail && okEnum0
 		r.Check(ok, "AofRotateReader.openFile/verifies", f.Pos(), "with verification enabled every segment must be checked when it is opened and a failed check must fail the open")
 		// ... every segment: on no path does a successful open skip the check unless verification is off
 		// (a reader that remembers "already verified" serves the segments it rotates into unchecked)
@@ -1467,58 +1558,36 @@ func ruleReaderPositioning(w *core.World, r *core.Report) {
 
 	// (a) openFile leaves the file right behind the header on every successful return
 	if f := fn(w, r, "(*pkg/store.AofRotateReader).openFile"); f != nil {
-		var final []core.Site
-		var moves []core.Site
-		for _, s := range core.Sites(f, false) {
-			switch {
-			case s.Name == "(*os.File).Seek":
-				moves = append(moves, s)
-				if a := s.Args(); len(a) >= 2 && isHdr(a[0]) && isZero(a[1]) {
-					final = append(final, s)
-				}
-			case s.Name == "(*os.File).Read" || (s.Callee != nil && movers[s.Callee] && s.Callee != f):
-				moves = append(moves, s)
-			}
-		}
 		bad := ""
 		var badPos token.Pos = f.Pos()
 		nret := 0
-		for _, in := range core.Instrs(f) {
-			ret, ok := in.(*ssa.Return)
-			if !ok {
-				continue
-			}
-			nilRet := false
-			for _, v := range core.RetVals(ret, 0) {
-				if core.IsNilConst(v) {
-					nilRet = true
-				}
-			}
-			if !nilRet {
-				continue
+		okEnum := core.EnumPathsN(f.Blocks[0], 0, 100000, core.Unroll, func(p *core.Path) {
+			ret, isRet := p.End.(*ssa.Return)
+			if !isRet || ret.Parent() != f || bad != "" || !pathNil(p, ret.Results[len(ret.Results)-1]) {
+				return
 			}
 			nret++
-			okRet := false
-			for _, s := range final {
-				if !core.Dominates(s.Instr, ret) || !core.OnSuccessOf(ret.Block(), s.Value()) {
-					continue
+			// the last operation of the path that moves the file
+			var last *core.Site
+			sites := pathSites(p)
+			for k := range sites {
+				s := sites[k]
+				if s.Name == "(*os.File).Seek" || s.Name == "(*os.File).Read" || (s.Callee != nil && movers[s.Callee] && s.Callee != f) {
+					last = &sites[k]
 				}
-				// nothing moves the file between the final seek and the return
-				later := core.PathFrom(f, s.Instr, func(x ssa.Instruction) bool {
-					for _, m := range moves {
-						if m.Instr == x {
-							return true
-						}
-					}
-					return false
-				}, core.Is(ret))
-				if later == nil {
+			}
+			okRet := false
+			if last != nil && last.Name == "(*os.File).Seek" {
+				if a := last.Args(); len(a) >= 2 && isHdr(p.Resolve(a[0])) && isZero(p.Resolve(a[1])) && !failedOn(p, last.Value()) {
 					okRet = true
 				}
 			}
 			if !okRet {
 				bad, badPos = "a successful return is reached without the file having been positioned at headerSize as the last file operation (a verification pass or header read before it leaves the position elsewhere, or at 0)", ret.Pos()
 			}
+		})
+		if !okEnum {
+			bad = "too many paths"
 		}
 		r.Check(bad == "" && nret >= 1, "AofRotateReader.openFile/positioned-behind-header", badPos, "%s", bad)
 	}
